@@ -5,7 +5,8 @@
    This file only restates the property theorems; proofs are in frame/*Proofs.v. *)
 From Coq Require Import List NArith ZArith Bool.
 From JV Require Import Bytes FrameBase FrameBaseProofs FrameSpec Split SplitProofs Hdr HdrProofs
-  JsonScan JsonScanProofs RawJson RawJsonProofs Direct DirectProofs DirectMore FrameMore Chunked ChunkedProofs ChunkedHdr ChunkedHdrProofs RawJsonMore.
+  JsonScan JsonScanProofs RawJson RawJsonProofs Direct DirectProofs DirectMore FrameMore Chunked ChunkedProofs ChunkedHdr ChunkedHdrProofs RawJsonMore RawJsonGrammar.
+From JV Require Json.
 Import ListNotations.
 Local Open Scope N_scope.
 
@@ -177,3 +178,12 @@ Theorem c11_rawjson_self_delimiting_lit : forall r rest,
   json_record_lit r = true -> scan (r ++ rest) = Done rest.
 Proof. exact scan_self_delimiting_lit. Qed.
 Print Assumptions c11_rawjson_self_delimiting_lit.
+
+(* the record class of c11_rawjson, characterised in the INDEPENDENT JSON grammar of json/Json.v
+   (the recursive-descent parser behind json.Valid): json_record r holds exactly when r is one value
+   of that grammar without surrounding white space (tight_at 0) and is an object, array or string -
+   so the round trip is claimed for every such record, not for a class defined by the scanner itself *)
+Theorem c11_json_record_iff : forall r,
+  json_record r = true <-> starts_container_or_string r /\ Json.tight_at 0 r = true.
+Proof. exact json_record_iff. Qed.
+Print Assumptions c11_json_record_iff.
